@@ -226,7 +226,7 @@ pub fn run(tier: &str) -> i32 {
             alpha: Alphabet::tree(n, &diffs),
             oracle: C02,
         };
-        let e = explore(&m, &Limits::new(3, if quick { 50 } else { 3000 }));
+        let e = explore(&m, &Limits::new(3, if quick { 300 } else { 3000 }));
         rep.absorb(
             &format!("TREE net={} theta={} n={} D={:?}", net, theta, n, diffs),
             e,
